@@ -44,6 +44,15 @@ pub fn clear_terms() {
     terms().clear();
 }
 
+/// size of the term table / drop the terms interned after it had that size (hcsched resets a map between schedules)
+pub fn terms_len() -> usize {
+    terms().len()
+}
+
+pub fn truncate_terms(n: usize) {
+    terms().truncate(n);
+}
+
 pub fn term_str(id: u32) -> String {
     let n = terms()[id as usize].clone();
     match n {
